@@ -2,8 +2,8 @@
 from props._cw import Cw
 
 PROP = 'C09'
-PROPS_MODULES = ['LA.Props.C09']
-GEN = ['WriteLayout']
+PROPS_MODULES = ['LA.Props.C09', 'LA.Props.C09Filters']
+GEN = ['WriteLayout', 'WriteCalls']
 ASSUMPTIONS = ['malloc never fails', 'a write callback never claims more bytes than it was offered (outside the property\'s quantifier)',
                'header strings are NUL-free bytes copied without charset conversion (sconv == NULL on POSIX)']
 TRUSTED = []
